@@ -4,7 +4,8 @@ from common import *
 import txnfam, findings
 
 CFG = 'SPECIFICATION Spec\nCONSTANTS Rows <- %s\n TableOf <- %s\n Monitors <- %s\n MaxTxns = %d\n MaxCuts = %d\n PurgeVariant = "%s"\nINVARIANT Resynchronised\nCHECK_DEADLOCK FALSE\n'
-FILES = ["Reconn.tla", "MC_Reconn.tla"]
+FILES = ["Reconn.tla", "MC_Reconn.tla", "Leader.tla", "MC_Leader.tla", "TraceLeader.tla"]
+LCFG = 'SPECIFICATION Spec\nCONSTANTS\n Endpoints = {"A","B"}\n MaxEvents = %d\n Variant = "%s"\nINVARIANT AttachedToLeader\nPROPERTY Settles\nCHECK_DEADLOCK FALSE\n'
 
 
 def model_check(tier):
@@ -27,6 +28,46 @@ def model_check(tier):
         if "Invariant Resynchronised is violated" not in o2:
             raise Broken("MC_Reconn: the pinned purge rule is not refuted")
         return {"mc_states": tot_s, "mc_transitions": tot_t, "variant_refuted": "pinned (every restarted monitor purges the cache)"}, cases
+
+
+def leader_model_check():
+    with Scratch("mcleader") as sc:
+        copy_spec(sc.dir, FILES)
+        open(sc.path("MC_Leader.tla"), "a").write("")
+        src = open(sc.path("MC_Leader.tla")).read().replace("=============================================================================", "ASSUME Emit(0)\n=============================================================================")
+        open(sc.path("MC_Leader.tla"), "w").write(src)
+        open(sc.path("ML.cfg"), "w").write(LCFG % (5, "intended"))
+        rc, out, wall = run_tlc(sc.dir, "MC_Leader.tla", cfg="ML.cfg", workers=4, timeout=900)
+        if "Model checking completed. No error has been found." not in out:
+            raise Broken("MC_Leader: the intended leader-only design fails or TLC failed:\n" + out[-3000:])
+        g, d = tlc_stats(out)
+        cases = tlc_prints(out, "CASE")
+        open(sc.path("MLv.cfg"), "w").write(LCFG % (3, "sticky"))
+        rc, o2, w2 = run_tlc(sc.dir, "MC_Leader.tla", cfg="MLv.cfg", workers=2, timeout=900)
+        if "Invariant AttachedToLeader is violated" not in o2:
+            raise Broken("MC_Leader: the sticky variant is not refuted")
+        return {"leader_states": d, "leader_transitions": g}, cases
+
+
+def run_leader(vh, cases):
+    with Scratch("leader") as sc:
+        copy_spec(sc.dir, FILES)
+        with open(sc.path("cases.ndjson"), "w") as f:
+            for c in cases:
+                f.write(json.dumps(c) + "\n")
+        rc, o, e = run([vh, "leader-cases", "-cases", sc.path("cases.ndjson"), "-o", sc.path("trace.ndjson")], timeout=3000)
+        if rc != 0:
+            raise Broken("vh leader-cases failed: " + e[-3000:])
+        open(sc.path("T.cfg"), "w").write("SPECIFICATION Spec\nCHECK_DEADLOCK FALSE\n")
+        rc, out, wall = run_tlc(sc.dir, "TraceLeader.tla", cfg="T.cfg", workers=1, timeout=900)
+        complete = tlc_prints(out, "TRACE-COMPLETE")
+        if rc != 0 or not complete:
+            raise Broken("TraceLeader did not complete:\n" + out[-3000:])
+        g, d = tlc_stats(out)
+        mism = tlc_prints(out, "MISMATCH")
+        trace = [json.loads(l) for l in open(sc.path("trace.ndjson")) if l.strip()]
+        return {"mismatches": mism, "states": d, "transitions": g, "runs": len(trace), "sample": trace[-1] if trace else None,
+                "cases": [{"mismatch": m, "leader": cases[m["detail"]["id"]]} for m in mism]}
 
 
 def run_shards(vh, cases):
@@ -60,6 +101,9 @@ def run_shards(vh, cases):
 
 def confirm_fn(vh):
     def confirm(case):
+        if "leader" in case:
+            r = run_leader(vh, [case["leader"]])
+            return [m for m in r["mismatches"] if m["what"] == case["mismatch"]["what"]], None
         res = run_shards(vh, [case["reconn"]])
         want = case["mismatch"]
         got = [c["mismatch"] for r in res for c in r["cases"] if c["mismatch"]["what"] == want["what"]]
@@ -79,17 +123,25 @@ def run_check(prop, tier):
     single = [c for c in cases if len(c["methods"]) == 1]
     sel = (multi[:180] + single[:60]) if tier == "quick" else cases
     res = run_shards(vh, sel)
-    allc = [c for r in res for c in r["cases"] if c["mismatch"].get("prop") == "C16"]
+    lcov, lcases = leader_model_check()
+    lsh = [lcases[i::8] for i in range(8)]
+    lres = pmap(lambda sh: run_leader(vh, sh), [x for x in lsh if x])
+    allc = [c for r in res for c in r["cases"] if c["mismatch"].get("prop") == "C16"] + [c for r in lres for c in r["cases"]]
+    cov.update(lcov)
+    cov.update({"leader_histories_run": sum(r["runs"] for r in lres), "leader_sample": lres[0]["sample"] if lres else None})
     verdict = findings.adjudicate(prop, allc, confirm_fn(vh))
-    cov.update({"states": cov["mc_states"] + sum(r["states"] for r in res), "transitions": cov["mc_transitions"] + sum(r["transitions"] for r in res),
-                "traces_validated_against_impl": len(res), "scenarios_enumerated": total, "scenarios_run": sum(r["runs"] for r in res),
+    cov.update({"states": cov["mc_states"] + lcov["leader_states"] + sum(r["states"] for r in res + lres),
+                "transitions": cov["mc_transitions"] + lcov["leader_transitions"] + sum(r["transitions"] for r in res + lres),
+                "traces_validated_against_impl": len(res) + len(lres), "scenarios_enumerated": total, "scenarios_run": sum(r["runs"] for r in res),
                 "faults_fired": sum(r["faults_fired"] for r in res), "client_transactions_with_markers": sum(r["markers"] for r in res),
                 "samples": [r["sample"] for r in res[:2] if r.get("sample")], "known_findings_seen": verdict["known"],
                 "rule": "TLC checks Reconn.tla (cuts at any point, sequential monitor restarts, commits by others meanwhile) for 1 and 2 monitors and refutes "
                         "the pinned purge rule; it enumerates fault scenarios (1-3 monitors of any method; cut after / inside the k-th message of either "
                         "direction in steady state or again while reconnecting; silent peer detected by the inactivity probe; 0-3 transactions by others "
                         "while away; two faults in a row); each runs on a real client with reconnect behind a message-boundary aware proxy; once connected "
-                        "again the cache must converge to the database and every marked Transact call must be applied exactly / at most once"})
+                        "again the cache must converge to the database and every marked Transact call must be applied exactly / at most once; "
+                        "Leader.tla (TLC: attached to a leader once the row has been seen, settles under fairness; sticky variant refuted) enumerates leadership "
+                        "histories run on a real leader-only client with two servers"})
     write_evidence(prop, tier, "model_checking", cov, time.time() - t0, violations=len(verdict["violations"]),
-                   assumptions=["convergence is awaited for 15 s after the faults stop", "leader-only endpoints are not exercised in this run"])
+                   assumptions=["convergence is awaited for 15 s after the faults stop", "leader-only: two endpoints with their own databases and _Server rows; every history of up to three leadership changes from every initial pair of flags"])
     return verdict
